@@ -23,8 +23,8 @@ RULE = ("case = one sampler configuration (method, R, P, V, mask, assignment, sh
         "QMC cases additionally need V_handled>1 and R*P>1 to be able to expose scrambling (counted separately); distinct key = case index")
 ASSUMPTIONS = ["callers do not write into the array returned by generate_samples (ropt's own caller stopped doing so with /repo commit 08fcbdd)",
                "non-shared realizations 'differ' is only required when R>=2 and at least one handled variable (probability of an accidental tie is negligible for continuous draws)"]
-REQUIRED = {"quick": {"calls_checked": 3600, "qmc_vectors_matched": 8000, "qmc_multidim_cases": 296, "lhs_strata_checked": 300, "shared_checked": 600, "unhandled_zero_entries": 5000, "e2e_checked": 120, "samplers_with_explicit_options": 60, "__nontrivial__": 1142},
-            "thorough": {"calls_checked": 90000, "qmc_vectors_matched": 200000, "qmc_multidim_cases": 7227, "lhs_strata_checked": 8000, "shared_checked": 15000, "unhandled_zero_entries": 120000, "e2e_checked": 2400, "samplers_with_explicit_options": 1500, "__nontrivial__": 27891}}
+REQUIRED = {"quick": {"calls_checked": 3600, "qmc_vectors_matched": 8000, "qmc_multidim_cases": 296, "lhs_strata_checked": 300, "shared_checked": 600, "unhandled_zero_entries": 5000, "e2e_checked": 120, "e2e_identically_configured_samplers": 15, "samplers_with_explicit_options": 60, "__nontrivial__": 1142},
+            "thorough": {"calls_checked": 90000, "qmc_vectors_matched": 200000, "qmc_multidim_cases": 7227, "lhs_strata_checked": 8000, "shared_checked": 15000, "unhandled_zero_entries": 120000, "e2e_checked": 2400, "e2e_identically_configured_samplers": 300, "samplers_with_explicit_options": 1500, "__nontrivial__": 27891}}
 N = {"quick": 2000, "thorough": 50000}
 METHODS = ["norm", "uniform", "truncnorm", "sobol", "halton", "lhs", "default"]
 BOUNDED = {"uniform", "truncnorm", "sobol", "halton", "lhs"}
@@ -201,6 +201,10 @@ def _e2e(case, obs):
     two = rng.random() < 0.5
     if two:
         spec["samplers"].append({"method": METHODS[int(rng.integers(6))], "shared": bool(rng.random() < 0.4)})
+        if rng.random() < 0.35:
+            # two entries configured identically are still two samplers, each with its own variables
+            spec["samplers"][1] = dict(spec["samplers"][0])
+            obs.count("e2e_identically_configured_samplers")
         spec["smap"] = [int(t) for t in rng.integers(0, 2, size=V)]
     case["spec"] = spec
     cfg = ens.make_config(spec)
@@ -224,6 +228,9 @@ def _e2e(case, obs):
             return
         for k, sm in enumerate(spec["samplers"]):
             cols = handled & (np.array(spec["smap"]) == k)
+            if cols.any() and R * P > 0 and sm["method"] not in ("default",) and not np.any(d[..., cols] != 0.0):
+                obs.violation("e2e_variables_of_a_sampler_not_perturbed", method=sm["method"], sampler=k, assignment=spec["smap"], mask=mask)
+                return
             if sm["method"] in BOUNDED and cols.any() and np.max(np.abs(d[..., cols])) > 1.0 + 1e-9:
                 obs.violation("e2e_out_of_range", method=sm["method"], sampler=k, max=float(np.max(np.abs(d[..., cols]))))
                 return
